@@ -366,7 +366,8 @@ def part_cli(chk, runner):
         stderr = se.decode("latin-1")
 
         def fail(why, sig="C16:cli:changed", **kw):
-            chk.violation(dict({"kind": "property-fails-on-implementation", "part": "cli-" + name, "why": why, "exit": rc, "stderr": stderr[-600:]}, **desc, **kw),
+            chk.violation(dict({"kind": "property-fails-on-implementation", "part": "cli-" + name, "why": why, "exit": rc, "stderr": stderr[-600:],
+                                "input_pdf_hex": open(path, "rb").read().hex()}, **desc, **kw),
                           signature=sig)
         if ji not in sr_of:
             fail("qpdf failed (exit %d) on a readable input" % rc)
@@ -501,7 +502,7 @@ def part_cli(chk, runner):
             got = [next(sem_res)]
             whole = next(sem_res)
             di, name, cfg, path = jobs[ji]
-            desc = {"argv": ["qpdf", "--static-id"] + cfg + [os.path.basename(path), os.path.basename(results[ji][2])], "doc": di}
+            desc = {"argv": ["qpdf", "--static-id"] + cfg + [os.path.basename(path), os.path.basename(results[ji][2])], "doc": di, "_path": path}
             check_extern(chk, name, desc, pdesc, ps, os_, ores, sd, min_bytes, got, whole, results[ji])
     if tie_fail:
         chk.violation({"kind": "correspondence-broken", "correspondence": "corr:C16:cli", "differing_cases": len(tie_fail), "first_case": tie_fail[0][0],
@@ -538,7 +539,9 @@ def check_extern(chk, name, desc, pdesc, ps, os_, ores, sd, min_bytes, got, whol
             sig = "C16:cli:ei-vt"          # the image was ended at EI<VT> (finding C16-F1)
         elif whole != "invalid" and d0_after_image():
             sig = "C16:cli:findei-d0"      # the true EI was rejected because d0/d1 follows (finding C16-F6)
-        chk.violation(dict({"kind": "property-fails-on-implementation", "part": "cli-" + name, "why": why, "exit": rc, "stderr": stderr[-600:]}, **desc, **pdesc, **kw),
+        d2 = {k: v for k, v in desc.items() if k != "_path"}
+        chk.violation(dict({"kind": "property-fails-on-implementation", "part": "cli-" + name, "why": why, "exit": rc, "stderr": stderr[-600:],
+                            "input_pdf_hex": open(desc["_path"], "rb").read().hex()}, **d2, **pdesc, **kw),
                       signature=sig)
     if whole == "invalid" or any(g == "invalid" for g in got):
         if whole != "invalid":
@@ -606,5 +609,23 @@ def check_extern(chk, name, desc, pdesc, ps, os_, ores, sd, min_bytes, got, whol
 
 
 def replay_cli(chk, rep):
-    print("re-run:", " ".join(rep.get("argv", [])), "(inputs are regenerated by ./check C16 with the same VERIF_SEED)")
-    return 0
+    """re-run the recorded qpdf job on the recorded input file and show the page content it writes"""
+    wd = common.workdir("C16-replay")
+    argv = rep.get("argv", [])
+    if "input_pdf_hex" not in rep or len(argv) < 3:
+        print("re-run:", " ".join(argv), "(inputs are regenerated by ./check C16 with the same VERIF_SEED)")
+        return 0
+    inp = os.path.join(wd, "in.pdf")
+    out = os.path.join(wd, "out.pdf")
+    open(inp, "wb").write(bytes.fromhex(rep["input_pdf_hex"]))
+    rc, so, se = common.run_qpdf(argv[1:-2] + [inp, out])
+    print("qpdf", " ".join(argv[1:-2]), "-> exit", rc)
+    print(se.decode("latin-1")[-800:])
+    if rc in (0, 3) and os.path.exists(out):
+        r = filecheck.strict_read([out])[0]
+        if r.get("ok"):
+            sd = filecheck.StrictDoc(r, out)
+            pages, _, _ = read_output(sd)
+            for i, (streams, _res) in enumerate(pages):
+                print("page", i, [repr(x)[:300] for x in streams])
+    return 1 if rc not in (0, 3) else 0
